@@ -126,7 +126,9 @@ Print Assumptions duplicates_counted.
    change -, the change is edge-acyclic for every set of registrations and expressions. *)
 Theorem dag_heaps_are_edge_acyclic :
   forall t rank h rs o fo news,
-    fo <> TA -> ranked rank h -> (forall y, In y news -> rank o < rank y) -> edge_acyclic t h rs o fo news.
+    fo <> TA -> ranked rank h -> (forall y, In y news -> rank o < rank y) ->
+    (forall kc, In kc (occ_all t h rs o fo) -> forall y, In y news -> walkable t (upd h o fo news) (snd kc) y = true) ->
+    edge_acyclic t h rs o fo news.
 Proof. exact ranked_edge_acyclic_lemma. Qed.
 Print Assumptions dag_heaps_are_edge_acyclic.
 
@@ -154,7 +156,7 @@ Print Assumptions expected_trait_addition.
    o.observe(h, "f.f.value"); o.f = p; p.f = o; p.value = 9: nothing raises, the hypothesis fails at
    the third operation, and the last probe calls the handler for (p, value), which is not matched. *)
 Definition f14_history : list op :=
-  [SetRef 0 1 [0]; Observe 0 0 (G [1] true true [G [1] true true [G [0] true true []]]);
+  [SetRef 0 1 [0]; Observe 0 0 (G [1] true true false [G [1] true true false [G [0] true true false []]]);
    SetRef 0 1 [1]; SetRef 1 1 [0]; Probe 1].
 Theorem cyclic_refuted :
   exists ops, Forall (fun p : op * obs => ob_out (snd p) = Ok) (run (init 2) ops)
@@ -172,7 +174,7 @@ Print Assumptions cyclic_refuted.
    o.kids.append(p); o.kids[0] = o: the mutation raises NotifierNotFound in the model as in the code. *)
 Definition f14_list_history : list op :=
   [SetCont 0 3 [] true; SetCont 1 3 [] true;
-   Observe 0 0 (G [3] true true [G [6] true false [G [3] true true [G [6] true false [G [0] true true []]]]]);
+   Observe 0 0 (G [3] true true false [G [6] true false false [G [3] true true false [G [6] true false false [G [0] true true false []]]]]);
    Splice 2 6 0 0 [1]; Splice 2 6 0 1 [0]].
 Theorem cyclic_list_refuted :
   exists ops, hyps (init 2) ops = false
@@ -186,7 +188,7 @@ Print Assumptions cyclic_list_refuted.
    so every maintainer hooks the new container twice.  After the container is replaced, the detached one
    still calls the handler: the law fails at the last step, nothing raises, the invariant is broken. *)
 Definition del_container_history : list op :=
-  [SetCont 0 3 [1] false; Observe 0 0 (G [3] true true [G [6] true false []]); DelCont 0 3;
+  [SetCont 0 3 [1] false; Observe 0 0 (G [3] true true false [G [6] true false false []]); DelCont 0 3;
    SetCont 0 3 [2] false; Splice 4 6 0 0 [1]].
 Theorem del_container_refuted :
   exists ops, Forall (fun p : op * obs => ob_out (snd p) = Ok) (run (init 3) ops)
@@ -200,16 +202,76 @@ Proof.
 Qed.
 Print Assumptions del_container_refuted.
 
+(* The `optional` flag and the failing walk.  A registration whose walk meets a missing non-optional trait raises
+   ValueError and changes NOTHING (the shared undo log of _observe.py). *)
+Theorem failed_registration_is_atomic :
+  forall st k r g, walkable (st_traits st) (st_heap st) g r = false ->
+    step st (Observe k r g) = (st, mkObs (Raise ValueError) [] []).
+Proof. exact failed_registration_lemma. Qed.
+Print Assumptions failed_registration_is_atomic.
+
+Theorem failed_registration_of_several_graphs_is_atomic :
+  forall st k r gs, forallb (fun g => walkable (st_traits st) (st_heap st) g r) gs = false ->
+    step st (ObserveAll k r gs) = (st, mkObs (Raise ValueError) [] []).
+Proof. exact failed_registration_all_lemma. Qed.
+Print Assumptions failed_registration_of_several_graphs_is_atomic.
+
+(* A maintainer that cannot hook the new value: the change is stored, ValueError reaches the caller, and the hooks
+   are exactly those the expressions demand when the slot holds only the objects that stayed - nothing remains
+   below the detached old value (observer_change_handler unhooks the old value BEFORE hooking the new one).
+   Stated for the slot's single maintainer failing on the first added object. *)
+Theorem old_value_unhooked_when_new_value_cannot_be_hooked :
+  forall st o fo news removed added keep prevented strict k c y ys,
+    inv st ->
+    Permutation (st_heap st o fo) (keep ++ removed) -> Permutation news (keep ++ added) ->
+    fo <> TA ->
+    (forall kc, In kc (occ_all (st_traits st) (st_heap st) (st_regs st) o fo) ->
+       forall z, In z (st_heap st o fo) \/ In z news -> visits (st_traits st) (st_heap st) (snd kc) z o fo = false) ->
+    maint_on (st_hooks st) o fo = [(k, c)] ->
+    added = y :: ys -> walkable (st_traits st) (upd (st_heap st) o fo news) c y = false ->
+    ob_out (snd (change st o fo news removed added prevented strict)) = Raise ValueError
+    /\ st_heap (fst (change st o fo news removed added prevented strict)) = upd (st_heap st) o fo news
+    /\ Permutation (st_hooks (fst (change st o fo news removed added prevented strict)))
+                   (expected_all (st_traits st) (upd (st_heap st) o fo keep) (st_regs st)).
+Proof. exact change_fails_single. Qed.
+Print Assumptions old_value_unhooked_when_new_value_cannot_be_hooked.
+
+(* The optional flag only matters for failure: it never changes which (object, trait) pairs an expression
+   reaches, and an expression all of whose observers are optional can always be hooked. *)
+Theorem optional_flag_does_not_change_reachability :
+  forall t h b g x o fo, matched t h (set_optional b g) x o fo = matched t h g x o fo.
+Proof. exact matched_set_optional. Qed.
+Print Assumptions optional_flag_does_not_change_reachability.
+
+Theorem optional_expressions_never_fail :
+  forall t h g, all_optional g = true -> forall x, walkable t h g x = true.
+Proof. exact all_optional_walkable. Qed.
+Print Assumptions optional_expressions_never_fail.
+
+(* Non-vacuity of the two: object 1 has the non-optional trait 12, object 2 does not.  Registering on 2 fails
+   atomically; re-assigning 0.f from 1 to 2 raises ValueError, is stored, and the detached object 1 is silent:
+   the only complaint of the law is nothing at all (the raise is the allowed one). *)
+Example unhookable_nontrivial :
+  let g := G [1] true true false [G [12] true true false [G [0] true true false []]] in
+  let ops := [AddTrait 1 12; SetRef 0 1 [1]; SetRef 1 12 [3]; Observe 0 0 g; Probe 3;
+              SetRef 0 1 [2]; Probe 3; SetRef 1 12 []; Observe 1 2 (G [12] true true false []); SetRef 0 1 [1]; Probe 3] in
+  map (fun p => (ob_out (snd p), length (ob_calls (snd p)))) (run (init 4) ops)
+  = [(Ok, 0); (Ok, 0); (Ok, 0); (Ok, 0); (Ok, 1); (Raise ValueError, 1); (Ok, 0); (Ok, 0);
+     (Raise ValueError, 0); (Ok, 1); (Ok, 0)]
+  /\ law_hist 0%Z init_traits (fun _ _ => []) [] (run (init 4) ops) = []
+  /\ hyps (init 4) ops = false.
+Proof. vm_compute. repeat split; reflexivity. Qed.
+
 (* Non-vacuity: a history over a DAG with a list holding the same object twice, an equal list
    re-assigned, a default materialised late, a quiet link, a filter node (f and g), an optional observer
    of a trait added later with add_trait, and an anytrait leaf meets the hypotheses, and calls happen. *)
 Example history_nontrivial :
-  let g := G [3] true true [G [6] true false [G [1] false true [G [0] true true []]; G [0] true true []]] in
-  let d := G [1; 2] true true [G [12] true true [G [0] true true []]] in
+  let g := G [3] true true false [G [6] true false false [G [1] false true false [G [0] true true false []]; G [0] true true false []]] in
+  let d := G [1; 2] true true false [G [13] true true true [G [0] true true false []]] in
   let ops := [SetRef 1 1 [2]; SetCont 0 3 [1; 2; 1] false; Observe 0 0 g; Probe 1; Probe 2;
               Splice 3 6 0 1 []; Probe 1; SetCont 0 3 [1] false; SetCont 0 3 [1] false; Probe 0;
-              Observe 1 1 (G [5] true true [G [8] true false []]); Touch 1 5; Splice 6 8 0 0 [2]; Unobserve 0 0 g; Probe 2;
-              Observe 0 1 d; Observe 1 2 (G [0; 1; 2; 10; 12] true true []); AddTrait 2 12; SetRef 2 12 [0]; Probe 0] in
+              Observe 1 1 (G [5] true true false [G [8] true false false []]); Touch 1 5; Splice 6 8 0 0 [2]; Unobserve 0 0 g; Probe 2;
+              Observe 0 1 d; Observe 1 2 (G [0; 1; 2; 10; 13] true true true []); AddTrait 2 13; SetRef 2 13 [0]; Probe 0] in
   hyps (init 3) ops = true
   /\ map (fun p => length (ob_calls (snd p))) (run (init 3) ops)
      = [0; 0; 0; 1; 1; 1; 1; 1; 0; 0; 0; 0; 1; 0; 0; 0; 0; 1; 2; 1]
